@@ -177,15 +177,17 @@ def universe(tier, seed, shard, nshards):
                                 's1': s1, 's2': s2, 'window': w, 'penalty': pen, 'psi': psi, 'max_step': ms, 'max_dist': md,
                                 'inner': 'sq' if (k1 + k2) % 2 == 0 else 'eu'}
     # U5: long thin bands
-    for r in range(1, 15):
-        for c in range(1, 15):
+    top = 21 if thorough else 15
+    for r in range(1, top):
+        for c in range(1, top):
             if max(r, c) < 7:
                 continue
             idx += 1
             if idx % nshards != shard:
                 continue
-            for w in (1, 2, 3, 4):
-                for psi in (None, 1, 2, (0, 0, 0, 3), (0, 3, 0, 0), (3, 0, 0, 0), (0, 0, 3, 0), (0, 0, 0, c), (0, r, 0, 0)):
+            for w in ((1, 2, 3, 4, 5, 7) if thorough else (1, 2, 3, 4)):
+                for psi in (None, 1, 2, (0, 0, 0, 3), (0, 3, 0, 0), (3, 0, 0, 0), (0, 0, 3, 0), (0, 0, 0, c), (0, r, 0, 0)) + \
+                        (((5, 0, 0, 0), (0, 0, 5, 0), (0, 5, 0, 0), (0, 0, 0, 5), (4, 4, 4, 4)) if thorough else ()):
                     if psi is not None:
                         p = oracles.norm_psi(psi)
                         if oracles.psi_degenerate(p, r, c) or max(p[:2]) > r or max(p[2:]) > c:
@@ -247,7 +249,7 @@ def run(ctx):
                 'U1': 'all pairs len 1..%d x window x penalty x max_step x inner x all psi forms' % (4 if ctx.thorough else 3),
                 'U2': 'len 1..3: None/0 encodings of off; max_dist thresholds %r; use_pruning; only_ub; max_length_diff' % (THRESH,),
                 'U3': 'all shapes up to %s x every window x every psi form x catalogue values x penalty/max_step/max_dist' % ('7x7' if ctx.thorough else '5x5'),
-                'U5': 'long thin bands: every shape up to 14x14 with max >= 7, windows 1..4, 9 psi forms',
+                'U5': 'long thin bands: every shape up to %s with max >= 7, windows %s, %d psi forms' % (('20x20', '1..5,7', 14) if ctx.thorough else ('14x14', '1..4', 9)),
                 'U4': 'ndim 2..3 vectors over a 2-letter alphabet, len 1..2 (ndim 2: 1..3 in thorough)'},
         assumptions=['differential: the Python engine is the reference (tied to the definition by C01/C11)',
                      'cases on which the Python engine itself raises are counted (python_exception_not_compared) and left to C01/C03/C11',
